@@ -6,7 +6,7 @@
 (* in which the events were appended while the protecting lock was held    *)
 (* (urlMu for ReadURL/SetBoth, the registry's mutex for Send/Env).         *)
 (*   Boot     mode, needAuth, headOK                                       *)
-(*   Env      what ("switch" | "expire"), l                                *)
+(*   Env      what ("switch" | "deny" | "expire"), l                       *)
 (*   Start    a, kind            End   a, ok                               *)
 (*   ReadURL  a, url             SetBoth  a, url, hdr                      *)
 (*   Send     a, host, hdr, auth, meth, rsp, to   (every http.Request)     *)
@@ -26,7 +26,7 @@ TraceInit == Init /\ l = 1 /\ TLCSet(1, 0)
 
 TraceReset ==
     /\ IsEvent("Reset")
-    /\ mode' = "direct" /\ loc' = "L1" /\ valid' = Locs /\ needAuth' = FALSE /\ headOK' = TRUE /\ envn' = 0
+    /\ mode' = "direct" /\ loc' = "L1" /\ valid' = Locs /\ needAuth' = FALSE /\ headOK' = TRUE /\ envn' = 0 /\ regDeny' = FALSE
     /\ url' = "none" /\ header' = "None" /\ authed' = FALSE
     /\ pc' = [a \in Actors |-> IF a = "res" THEN "unborn" ELSE "idle"]
     /\ kind' = [a \in Actors |-> "none"]
@@ -41,7 +41,9 @@ TraceReset ==
 TraceBoot == IsEvent("Boot") /\ Boot(Ev.mode, Ev.needAuth, Ev.headOK)
 TraceEnv ==
     /\ IsEvent("Env")
-    /\ IF Ev.what = "switch" THEN SwitchMode ELSE Expire(Ev.l)
+    /\ CASE Ev.what = "switch" -> SwitchMode
+         [] Ev.what = "deny"   -> DenyReg
+         [] OTHER              -> Expire(Ev.l)
 TraceStart == IsEvent("Start") /\ Ev.a \in Procs /\ Start(Ev.a, Ev.kind)
 TraceReadURL == IsEvent("ReadURL") /\ ReadURL(Ev.a) /\ last'.url = Ev.url
 TraceSetBoth == IsEvent("SetBoth") /\ SetBoth(Ev.a) /\ last'.url = Ev.url /\ last'.hdr = Ev.hdr
